@@ -16,3 +16,5 @@ func hashString(s string) uint64 {
 }
 
 func hashHex(s string) string { return fmt.Sprintf("%012x", hashString(s)&0xffffffffffff) }
+
+func simRunnable() int { return simrt.Runnable() }
